@@ -275,6 +275,27 @@ def rx_reject_check(chk, rng, thorough):
                 out, _ = run_rx([bytes(bad)])
                 if "D:" in out or "W:" in out:
                     return {"kind": "burst", "frame_kind": name, "data_len": ln, "frame": good.hex(), "w": w, "o": o, "out": out[:120]}
+    # acknowledgement frames (a bare header): an accepted ACK hands nothing up and writes nothing - what it does is end the
+    # wait in progress and advance the numbering.  A header corrupted in 1 or 2 bits must do neither, whatever number the
+    # link currently expects.
+    for k in range(4):
+        for retx in (0, 2):
+            good = build_frame_bytes(None, b"", 1 | retx | (k << 4))
+            out, _ = run_rx([good], pack_seq=k, ack_event="0")
+            if ";A" not in ";" + out.split(" // ")[0] or "seq=%d " % (k % 3 + 1) not in out:
+                return {"kind": "selfcheck", "frame_kind": "ack", "frame": good.hex(), "out": out}
+            for i in range(40):
+                for j in range(i, 40):
+                    bad = bytearray(good)
+                    for bit in {i, j}:
+                        bad[2 + bit // 8] ^= 1 << (bit % 8)
+                    for q in range(4):
+                        chk.evaluations += 1
+                        out, _ = run_rx([bytes(bad)], pack_seq=q, ack_event="0")
+                        head = out.split(" // ")[0]
+                        if "A" in head.split(";") or "D:" in head or "W:" in head or ("seq=%d " % q) not in out or "ev=0" not in out:
+                            return {"kind": "header", "frame_kind": "ack(%d) while the link expects %d" % (k, q), "frame": good.hex(),
+                                    "bits": [i, j], "corrupted": bytes(bad).hex(), "out": out[:160]}
     return None
 
 
